@@ -33,6 +33,8 @@ BIAS = {
     "C13": dict(add_page=5, add_pages=1, add_links=1, batch=1, create_we=4, delete_we=1.5, add_prefix=3, remove_prefix=1, move_prefix=2, add_rule=2, remove_rule=0.5, reopen=0.3),
     "C19": dict(add_page=5, add_pages=2, add_links=3, batch=3, create_we=2, delete_we=0.5, add_prefix=1.5, remove_prefix=1, move_prefix=0.5, add_rule=1.2, remove_rule=0.4, reopen=0.5),
 }
+for _k in BIAS:
+    BIAS[_k].setdefault("clear", 0.25)
 BIAS["C08"] = BIAS["C07"]
 BIAS["C20"] = BIAS["C07"]
 BIAS["C09"] = BIAS["C05"]
@@ -65,7 +67,7 @@ def wchoice(rng, weights):
 
 
 class Gen(object):
-    def __init__(self, rng, prop, tier="quick", profile=None, nops=None, allow_restart=True, backend=None):
+    def __init__(self, rng, prop, tier="quick", profile=None, nops=None, allow_restart=True, backend=None, allow_clear=True):
         self.rng = rng
         self.prop = prop
         pw = PROFILE_WEIGHTS.get(prop, PROFILE_WEIGHTS["default"])
@@ -83,6 +85,8 @@ class Gen(object):
                 w[k] = 0
         if not allow_restart or rng.random() < 0.4:
             w["reopen"] = 0
+        if not allow_clear or rng.random() < 0.5:
+            w["clear"] = 0
         if not any(w[k] for k in ("add_page", "add_pages", "add_links", "batch")):
             w["add_page"] = 3
         self.weights = w
@@ -186,7 +190,10 @@ class Gen(object):
                     if r.random() < 0.2:
                         ts.append(t)
                 data.append([enc(s), [enc(x) for x in ts]])
-            return {"op": k, "data": data, "yf": r.choice([1, 2, 50])}
+            o = {"op": k, "data": data, "yf": r.choice([1, 2, 50])}
+            if r.random() < 0.3:
+                o["drive"] = "until_done"
+            return o
         if k == "create_we":
             n = r.choice([1, 1, 1, 2, 3])
             ps = []
@@ -209,6 +216,9 @@ class Gen(object):
                 o["wrong"] = True
             elif x < 0.2:
                 o["partial"] = True
+            elif x < 0.4:
+                o["extra"] = enc(self.ref() if r.random() < 0.6 else self.prefix())
+                o["extra_pos"] = r.choice([0, 1, 1, 2, 5])
             return o
         if k == "add_prefix":
             p = self.prefix()
@@ -225,7 +235,19 @@ class Gen(object):
             a = self.anchor()
             if a is None:
                 return {"op": "add_page", "lru": enc(self.lru()), "crawled": False}
-            return {"op": k, "anchor": enc(a), "rule": r.choice(["domain", "subdomain", "path1", "path2", "path1"])}
+            o = {"op": k, "anchor": enc(a), "rule": r.choice(["domain", "subdomain", "path1", "path2", "path1"])}
+            if r.random() < 0.3:
+                o["drive"] = "until_done"
+            return o
+        if k == "clear":
+            rules = []
+            for _ in range(r.choice([0, 0, 1, 2])):
+                a = self.anchor()
+                if a is not None and a not in [dec(x) for x, _ in rules]:
+                    rules.append([enc(a), r.choice(["domain", "path1", "path2", "subdomain"])])
+            self.rules = [(dec(a), n) for a, n in rules]
+            self.created_prefixes = []
+            return {"op": "clear", "default": r.choice([None, None, "domain", "path1"]), "rules": rules}
         if k == "remove_rule":
             a = self.anchor()
             cands = [x for x, _ in self.rules]
